@@ -236,7 +236,18 @@ pub fn exec_sync_with_fault(inst: &mut Inst, m: DMode, dp: &DriverPlan, ndisp: u
             }
             DriverPlan::Hold(t) => {
                 let s = can_finish_without(&inst.layout, *t, m.parallel(), pool_ok);
-                let h = Arc::new(Hold::new(&ctx, *t, s, Duration::from_micros(1500), Duration::from_millis(1500)));
+                let mut hh = Hold::new(&ctx, *t, s, Duration::from_micros(1500), Duration::from_millis(1500));
+                // every other time a sibling group of the target's stage is slow as well (it ends
+                // milliseconds after the fast ones, while the target is still parked)
+                if m.parallel() && pool_ok && di % 2 == 0 {
+                    let pos = inst.layout.pos();
+                    if let Some(&(ts, tg, _)) = pos.get(t) {
+                        if let Some(y) = inst.layout.stages[ts].iter().enumerate().filter(|(gi, _)| *gi != tg).filter_map(|(_, g)| g.last()).next() {
+                            hh.stagger = Some((*y, Duration::from_micros(2500 + 500 * (di as u64 % 3))));
+                        }
+                    }
+                }
+                let h = Arc::new(hh);
                 hold = Some(h.clone());
                 Arc::new(Both(Arc::new(Jitter { seed: di as u64 + 77, level: 0 }), h))
             }
